@@ -310,3 +310,33 @@ pub proof fn lemma_alt_reads_ge_lt<'s>(v: Version, w: Version, tail: Seq<char>, 
     lemma_pair_text_is_two_text(Operation::GreaterThanEquals, v, " <"@, Operation::LessThan, w, tail);
     lemma_alt_reads_two(Operation::GreaterThanEquals, v, Operation::LessThan, w, tail, i, o, rest);
 }
+pub proof fn lemma_alt_reads_ge_le<'s>(v: Version, w: Version, tail: Seq<char>, i: &'s str, o: Vec<BoundSet>, rest: &'s str)
+    requires wf_version(v), wf_version(w), ends_alternative(tail), i@ == pair_text(">="@, v, " <="@, w) + tail, range_acc(i, o, rest),
+    ensures rest@ == tail,
+        forall|x: VKey| #![trigger any_within(o@, o@.len() as int, x)] any_within(o@, o@.len() as int, x) <==> (kcmp(key(v), x) != Ordering::Greater && kcmp(x, key(w)) != Ordering::Greater),
+{
+    reveal_strlit(">="); reveal_strlit("<="); reveal_strlit(" <=");
+    assert(" <="@ =~= ch1(' ') + op_text(Operation::LessThanEquals));
+    lemma_pair_text_is_two_text(Operation::GreaterThanEquals, v, " <="@, Operation::LessThanEquals, w, tail);
+    lemma_alt_reads_two(Operation::GreaterThanEquals, v, Operation::LessThanEquals, w, tail, i, o, rest);
+}
+pub proof fn lemma_alt_reads_gt_lt<'s>(v: Version, w: Version, tail: Seq<char>, i: &'s str, o: Vec<BoundSet>, rest: &'s str)
+    requires wf_version(v), wf_version(w), ends_alternative(tail), i@ == pair_text(">"@, v, " <"@, w) + tail, range_acc(i, o, rest),
+    ensures rest@ == tail,
+        forall|x: VKey| #![trigger any_within(o@, o@.len() as int, x)] any_within(o@, o@.len() as int, x) <==> (kcmp(key(v), x) == Ordering::Less && kcmp(x, key(w)) == Ordering::Less),
+{
+    reveal_strlit(">"); reveal_strlit("<"); reveal_strlit(" <");
+    assert(" <"@ =~= ch1(' ') + op_text(Operation::LessThan));
+    lemma_pair_text_is_two_text(Operation::GreaterThan, v, " <"@, Operation::LessThan, w, tail);
+    lemma_alt_reads_two(Operation::GreaterThan, v, Operation::LessThan, w, tail, i, o, rest);
+}
+pub proof fn lemma_alt_reads_gt_le<'s>(v: Version, w: Version, tail: Seq<char>, i: &'s str, o: Vec<BoundSet>, rest: &'s str)
+    requires wf_version(v), wf_version(w), ends_alternative(tail), i@ == pair_text(">"@, v, " <="@, w) + tail, range_acc(i, o, rest),
+    ensures rest@ == tail,
+        forall|x: VKey| #![trigger any_within(o@, o@.len() as int, x)] any_within(o@, o@.len() as int, x) <==> (kcmp(key(v), x) == Ordering::Less && kcmp(x, key(w)) != Ordering::Greater),
+{
+    reveal_strlit(">"); reveal_strlit("<="); reveal_strlit(" <=");
+    assert(" <="@ =~= ch1(' ') + op_text(Operation::LessThanEquals));
+    lemma_pair_text_is_two_text(Operation::GreaterThan, v, " <="@, Operation::LessThanEquals, w, tail);
+    lemma_alt_reads_two(Operation::GreaterThan, v, Operation::LessThanEquals, w, tail, i, o, rest);
+}
